@@ -11,7 +11,7 @@ import props.wiring as wr
 
 MANIFEST = {
     "level": "proof",
-    "text": "runFrame: with the five per-cycle entry points abstracted to ghost tick counters, the loop invariant 'after mtick iterations every counter advanced by exactly mtick, and the timer interrupt request equals its old value or any overflow reported so far' is proved on entry and preserved (with a decreasing measure, so the loop ends), giving exactly 17,556 calls of each of cpu.ExecuteMachineCycle, ppu/memory/audio/timer.EndMachineCycle per frame; obligations attached to the abstracted calls prove the order inside every iteration: the CPU call happens when all five counters are equal (CPU first) and each of the other four happens exactly once after it; the frame is handed to the display exactly once when a display exists and the result is false otherwise. Run: with ctx.Done() modelled by a ghost 'cancelled' flag that may become true at any time, a frame is proved to start only directly after the non-blocking select saw the context not cancelled (so at most the frame in progress completes after cancellation), a true result of runFrame (display asks to close) ends the loop at once, and every return path runs the deferred Cleanup exactly once, which calls speakers.Cleanup / display.Cleanup iff the respective object exists. Progress per call: Mapper.EndMachineCycle (for each controller) performs exactly one DMA step and one RTC tick, rtc.tick advances the sub-second count by one unless halted, timer.EndMachineCycle advances the 16-bit counter by 4 and reports the overflow, ppu.EndMachineCycle advances the frame position by one, audio.EndMachineCycle advances the APU clock by 4 and emits one stereo sample per multiple of 95 among them. Wiring: the real gameboy.New is executed symbolically: the components runFrame steps are the very objects the CPU, PPU and bus refer to (one object per component), serial output goes to Config.SerialWriter, audio gets the speakers' channels iff there are speakers, the display gets this machine's controller and CPU.OnInput. An SSA scan shows each progress counter (APU clock and frame sequencer, timer counter, PPU frame position, RTC sub-second count, DMA cycle) is written only by its component's step function and the documented resets.",
+    "text": "runFrame: with the five per-cycle entry points abstracted to ghost tick counters, the loop invariant 'after mtick iterations every counter advanced by exactly mtick, and the timer interrupt request equals its old value or any overflow reported so far' is proved on entry and preserved (with a decreasing measure, so the loop ends), giving exactly 17,556 calls of each of cpu.ExecuteMachineCycle, ppu/memory/audio/timer.EndMachineCycle per frame; obligations attached to the abstracted calls prove the order inside every iteration: the CPU call happens when all five counters are equal (CPU first) and each of the other four happens exactly once after it; the frame is handed to the display exactly once when a display exists and the result is false otherwise. Run: with ctx.Done() modelled by a ghost 'cancelled' flag that may become true at any time, a frame is proved to start only directly after the non-blocking select saw the context not cancelled (so at most the frame in progress completes after cancellation), a true result of runFrame (display asks to close) ends the loop at once, and every return path runs the deferred Cleanup exactly once, which calls speakers.Cleanup / display.Cleanup iff the respective object exists. Progress per call: Mapper.EndMachineCycle (for each controller) performs exactly one DMA step and one RTC tick, rtc.tick advances the sub-second count by one unless halted, timer.EndMachineCycle advances the 16-bit counter by 4 and reports the overflow, ppu.EndMachineCycle advances the frame position by one, audio.EndMachineCycle advances the APU clock by 4 and emits one stereo sample per multiple of 95 among them. Wiring: the real gameboy.New is executed symbolically: the components runFrame steps are the very objects the CPU, PPU and bus refer to (one object per component), serial output goes to Config.SerialWriter, audio gets the speakers' channels iff there are speakers, the display gets this machine's controller and CPU.OnInput. An SSA scan shows each progress counter (APU clock and frame sequencer, timer counter, PPU frame position, RTC sub-second count, DMA cycle) is written only by its component's step function and the documented resets. tickClock itself (one clock, the frame sequencer every 8192 clocks, one stereo sample per multiple of 95) is discharged here, as is every other callee contract the run used (closure).",
     "note": "Assumed contracts: the five component entry points are abstract here (their own behaviour is C01-C21); context.Context.Done() returns a channel that is ready iff the context is cancelled, cancellation is monotone; display.RenderFrame / display.Cleanup / speakers.Cleanup are the (cgo, stubbed) environment. Liveness ('stops') is phrased as safety: no new frame starts once cancellation has been observed. That every component call corresponds to one machine cycle of that component is the subject of C10/C12/C13/C16/C20.",
     "technique": "loop invariants with ghost counters over the real go/ssa of runFrame and Run (defer, non-blocking select); z3",
     "design_ref": "DESIGN.md section 4 C26",
@@ -240,6 +240,9 @@ def tasks(ctx):
     ts.append(Task(ac.A + "WriteNR52", ac.A + "WriteNR52", overrides=ac.OV, keep=keep_labels({"clock"}, kinds=("requires",))))
     # audio.EndMachineCycle above uses tickClock through its contract: one clock, one sample per multiple of 95 - discharged here
     ts.append(Task(ac.A + "tickClock[outputs]", ac.A + "tickClock", variant="outputs", overrides=both, keep=keep_labels({"ticks", "sample", "sequencer"}, kinds=("requires",))))
+    # DMA progress restarts from the set-up cycle on every FF46 write
+    ts.append(Task("(*oam.OAM).startDMA", "(*oam.OAM).startDMA"))
+    ts.append(Task("(*oam.OAM).WriteDMA", "(*oam.OAM).WriteDMA"))
     ts.append(Task("(*oam.OAM).TickDMA", "(*oam.OAM).TickDMA", args=pc.tickdma_args, keep=keep_labels({"idle", "setup", "first", "copy", "last", "ok"})))
     # the machine that runs is the one gameboy.New builds: one object per component, all references consistent
     ts.append(LemmaTask("lemma:power-on", lambda c, e, ce: wr.power_on(c, e, ce, invariants=False), ["gameboy.New", "memory.New", "cpu.New", "ppu.New", "audio.New"]))
